@@ -6,7 +6,7 @@
 # install-cmd / demo-run-cmd are run with cwd = worktree; demo-run-cmd's exit code decides.
 set -u
 p="$1"; x="$2"; dest="/verif/seeded/$3"; install="$4"; run="$5"
-wt="/tmp/seed2/$p"; so="$wt/seed_out/$x"
+wt="${SEEDROOT:-/tmp/seed2}/$p"; so="$wt/seed_out/$x"
 cd "$wt" || exit 2
 export CARGO_TARGET_DIR="$wt/target" CARGO_NET_OFFLINE=true
 clean() { git checkout -q -- . ; git clean -fdq src tests examples 2>/dev/null; }
